@@ -268,6 +268,8 @@ class C15(Prop):
 
     def run_impl(self, case):
         full = self._run_full(case)
+        if len(self._cache) > 400:      # bounded (the driver's search loop may run thousands of cases)
+            self._cache.clear()
         self._cache[json.dumps(case, sort_keys=True)] = full
         blob = json.dumps(full, sort_keys=True).encode()
         return {"nd": full["nd"], "nc": full["nc"], "nf": full["nf"],
